@@ -83,6 +83,15 @@ void simk_add_child(pid_t pid);
 void simk_child_policy(pid_t pid, int policy, int n);
 void simk_child_event(pid_t pid, int what, int arg);
 
+/* memory-access recorder (memrec.c) */
+extern int memrec_on, memrec_words;
+void memrec_init(int words);
+void memrec_flush(void);
+void memrec_user_add(void *p, size_t n, int kind, int id);
+void memrec_buf(const void *p, size_t n, int wr);
+void *__real_malloc(size_t);
+void __real_free(void *);
+
 /* real functions */
 ssize_t __real_read(int, void *, size_t);
 ssize_t __real_write(int, const void *, size_t);
